@@ -199,8 +199,8 @@ class PolyhedralTerm(Term):
                 is zero, return `True`.
         """
         if polarity:
-            return self.variables[var] >= 0
-        return self.variables[var] <= 0
+            return self.get_coefficient(var) >= 0
+        return self.get_coefficient(var) <= 0
 
     def get_sign(self, var: Var) -> int:  # noqa: VNE002
         """
